@@ -78,6 +78,17 @@ func init() {
 	more["net/http.DetectContentType"] = func(it *Interp, a []Value) Value {
 		return it.mkStr("application/octet-stream")
 	}
+	// go:linkname: mime/multipart.readMIMEHeader is net/textproto.readMIMEHeader
+	more["mime/multipart.readMIMEHeader"] = func(it *Interp, a []Value) Value {
+		tp := it.Prog.ImportedPackage("net/textproto")
+		if tp == nil || tp.Func("readMIMEHeader") == nil {
+			it.unsupported("net/textproto.readMIMEHeader is not in the program")
+		}
+		return tailCall{fn: it.funcValue(tp.Func("readMIMEHeader")), args: a}
+	}
+	// GODEBUG settings: every setting has its default value (empty string)
+	more["(*internal/godebug.Setting).Value"] = func(it *Interp, a []Value) Value { return StrV{} }
+	more["(*internal/godebug.Setting).IncNonDefault"] = noop
 	for _, n := range []string{
 		"sync.runtime_registerPoolCleanup", "sync.runtime_notifyListCheck", "sync.throw", "sync.fatal",
 		"internal/sync.runtime_registerPoolCleanup", "os.runtime_args", "syscall.runtime_envs",
